@@ -269,13 +269,14 @@ def thorough_programs():
 _CACHE = {}
 
 
-def corpus(tier):
-    if tier in _CACHE:
-        return _CACHE[tier]
-    progs = quick_programs() if tier == "quick" else thorough_programs()
-    cp = e2.Corpus("reply-" + tier)
+def corpus(tier, features="full"):
+    key = (tier, features)
+    if key in _CACHE:
+        return _CACHE[key]
+    progs = quick_programs() if (tier == "quick" or features != "full") else thorough_programs()
+    cp = e2.Corpus("reply-" + tier if features == "full" else "replymin-" + tier, features=features)
     info = {}
-    obs = {o["id"]: o for o in core.e1_run([model.e1_contract_record(pid, contract_of(rms), want="items") for pid, rms, tags in progs], "reply-" + tier)}
+    obs = {o["id"]: o for o in core.e1_run([model.e1_contract_record(pid, contract_of(rms), want="items") for pid, rms, tags in progs], "reply-" + tier + features)}
     for pid, rms, tags in progs:
         valid, why, names = table_model(rms)
         if not valid:
@@ -290,8 +291,8 @@ def corpus(tier):
         info[pid] = (c, rms, tags, names)
     cp.write()
     cp.build()
-    _CACHE[tier] = (cp, info)
-    return _CACHE[tier]
+    _CACHE[key] = (cp, info)
+    return _CACHE[key]
 
 
 def e1_records(tier):
